@@ -234,6 +234,7 @@ pub struct FnWeaver<'a> {
     closure_ord: usize,
     guards: Vec<String>,
     params: Vec<String>,
+    params_by_value: Vec<bool>,
     ret_name: String,
     binds: BTreeMap<String, String>,
     bind_counts: BTreeMap<usize, usize>,
@@ -241,6 +242,7 @@ pub struct FnWeaver<'a> {
     has_fx: bool,
     vacuity: bool,
     pub saw_plain_lend: bool,
+    localise: bool,
     /// (name, arity) of the woven fx-taking methods of the impl type this function belongs to
     pub self_fx: Vec<(String, usize)>,
 }
@@ -266,6 +268,9 @@ impl<'a> FnWeaver<'a> {
 
     pub fn set_vacuity(&mut self) {
         self.vacuity = true;
+    }
+    pub fn set_localise(&mut self) {
+        self.localise = true;
     }
 
     fn subst(&self, text: &str) -> String {
@@ -313,6 +318,7 @@ impl<'a> FnWeaver<'a> {
                 } else {
                     self.params.push("_".into());
                 }
+                self.params_by_value.push(!matches!(&*pt.ty, syn::Type::Reference(_)));
             }
         }
         // X3: self: Pin<&mut Self>  ->  &mut self
@@ -458,16 +464,63 @@ impl<'a> FnWeaver<'a> {
             }
         }
         // pass B: scopes / exits
+        // exit obligations run innermost-scope first and, at function level, in the order
+        // exit-ghost, localised ensures, vacuity assert (the list is emitted in reverse)
         let mut pre = vec![];
-        for g in self.c.exit_ghost.clone().iter() {
-            let t = self.subst(g);
-            pre.push(ScopeOb { text: format!(" {} ", t), watch: None, force_wrap: false });
-        }
         if self.vacuity {
             let cl = Clause { id: "VACUITY".into(), props: vec![], text: "false".into() };
             let t = self.clause_text(&cl, "vacuity");
             // evaluated after the exit's value (an exit expression may contain inner exits)
             pre.push(ScopeOb { text: format!("\n assert({});\n", t), watch: None, force_wrap: true });
+        }
+        if self.localise {
+            // §3.8: every `ensures` clause is also asserted at each exit, so a failure names the exit
+            let ens = self.c.ensures.clone();
+            // by-value parameters may be shadowed in the body: ghost aliases taken at the start
+            let mut alias = String::new();
+            for (k, p) in self.params.clone().iter().enumerate() {
+                if self.params_by_value[k] && p != "_" {
+                    alias.push_str(&format!(" let ghost p{}__ = {}; ", k + 1, p));
+                }
+            }
+            if !alias.is_empty() {
+                self.ghost(hi(block.brace_token.span.open()), alias, -9);
+            }
+            for cl in ens.iter() {
+                let mut c2 = cl.clone();
+                let uses_ret = c2.text.contains("$ret");
+                c2.text = c2.text.replace("$ret", "$exitval");
+                for k in (0..self.params.len()).rev() {
+                    if self.params_by_value[k] && self.params[k] != "_" {
+                        c2.text = c2.text.replace(&format!("${}", k + 1), &format!("p{}__", k + 1));
+                    }
+                }
+                let mut t = self.clause_text(&c2, "ensures@exit").replace("$exitval", "r__");
+                // inside the body a `&mut` parameter denotes its current value
+                loop {
+                    match t.find("final(") {
+                        Some(k) => {
+                            let rest = &t[k + 6..];
+                            let close = rest.find(')').unwrap_or(0);
+                            let inner = rest[..close].to_string();
+                            if inner.chars().all(|ch| ch.is_alphanumeric() || ch == '_') {
+                                // X3: after `let this = self;` the current value of the receiver is `*this`
+                                let cur = if inner == "self" { self.binds.get("$this").cloned().unwrap_or(inner.clone()) } else { inner.clone() };
+                                t = format!("{}{}{}", &t[..k], cur, &rest[close + 1..]);
+                            } else {
+                                t = format!("{}FINAL__({}", &t[..k], rest);
+                            }
+                        }
+                        None => break,
+                    }
+                }
+                let t = t.replace("FINAL__(", "final(");
+                pre.push(ScopeOb { text: format!("\n assert({});\n", t), watch: None, force_wrap: uses_ret });
+            }
+        }
+        for g in self.c.exit_ghost.clone().iter() {
+            let t = self.subst(g);
+            pre.push(ScopeOb { text: format!(" {} ", t), watch: None, force_wrap: false });
         }
         self.walk_block(block, &vec![], &vec![], pre, true);
         // all binds must have been found
@@ -566,7 +619,7 @@ impl<'a> FnWeaver<'a> {
                 }
             }
         }
-        let text: String = obs.iter().rev().map(|o| o.text.clone()).collect();
+        let text: String = format!("/*@x:{}*/{}", line_of(self.src, lo(r.span())), obs.iter().rev().map(|o| o.text.clone()).collect::<String>());
         let s = lo(r.span());
         let e_ = hi(r.span());
         if needs_wrap {
@@ -633,7 +686,7 @@ impl<'a> FnWeaver<'a> {
             syn::Expr::If(_) | syn::Expr::While(_) | syn::Expr::ForLoop(_) => {
                 // unit typed: record after it
                 self.walk_expr(e, active);
-                let text: String = obs.iter().rev().map(|o| o.text.clone()).collect();
+                let text: String = format!("/*@x:{}*/{}", line_of(self.src, hi(e.span()).saturating_sub(1)), obs.iter().rev().map(|o| o.text.clone()).collect::<String>());
                 self.ghost(hi(e.span()), text, 0);
             }
             syn::Expr::Loop(_) => {
@@ -643,7 +696,7 @@ impl<'a> FnWeaver<'a> {
             syn::Expr::Macro(m) if ["panic", "unreachable", "unimplemented"].iter().any(|n| m.mac.path.is_ident(n)) => {}
             _ => {
                 self.walk_expr(e, active);
-                let text: String = obs.iter().rev().map(|o| o.text.clone()).collect();
+                let text: String = format!("/*@x:{}*/{}", line_of(self.src, lo(e.span())), obs.iter().rev().map(|o| o.text.clone()).collect::<String>());
                 let mut wrap = obs.iter().any(|o| o.force_wrap);
                 for o in obs.iter() {
                     if let Some(w) = &o.watch {
@@ -654,8 +707,11 @@ impl<'a> FnWeaver<'a> {
                 }
                 let (s, en) = (lo(e.span()), hi(e.span()));
                 // a `#[cfg]`-ed tail expression cannot be bound by `let`
+                let mut text = text;
                 if self.src[s..en].trim_start().starts_with("#[") {
                     wrap = false;
+                    // obligations that speak about the exit's value cannot be placed here
+                    text = format!("/*@x:{}*/{}", line_of(self.src, lo(e.span())), obs.iter().rev().filter(|o| !o.force_wrap).map(|o| o.text.clone()).collect::<String>());
                 }
                 if wrap && in_block_tail {
                     // X7 (tail of a block):  E   ->   let r__ = E; <obs> r__
@@ -856,7 +912,7 @@ impl<'a> FnWeaver<'a> {
                     _ => false,
                 };
                 if !diverges {
-                    let text: String = obs.iter().rev().map(|o| o.text.clone()).collect();
+                    let text: String = format!("/*@x:{}*/{}", line_of(self.src, lo(b.brace_token.span.close())), obs.iter().rev().map(|o| o.text.clone()).collect::<String>());
                     self.ghost(lo(b.brace_token.span.close()), text, 0);
                 }
             }
@@ -1177,6 +1233,7 @@ pub fn new_weaver<'a>(src: &'a str, file: &'a str, func: String, c: &'a FnContra
         closure_ord: 0,
         guards: vec![],
         params: vec![],
+        params_by_value: vec![],
         ret_name,
         binds: BTreeMap::new(),
         bind_counts: BTreeMap::new(),
@@ -1184,6 +1241,7 @@ pub fn new_weaver<'a>(src: &'a str, file: &'a str, func: String, c: &'a FnContra
         has_fx: c.fx,
         vacuity: false,
         saw_plain_lend: false,
+        localise: false,
         self_fx: vec![],
     }
 }
